@@ -2726,6 +2726,51 @@ def r19j(ctx):
                       key=f"simultaneous {what} {order}")
 
 
+# ====================================================================== R19k
+# Orders that depend on the call history: ``Expr.terms`` follows sympy's argument order, which compares Dummy indices by
+# their name strings ('i4' < 'o3'), while generic names wrap around (.. n3, o3, i4 ..) as the counters advance.  A choice
+# that follows that order (representative of a class of equivalent terms) must not survive into the result: simplify is
+# evaluated on a model expression for both orders of two equivalent terms and has to return the same result.
+
+def r19k(ctx):
+    rule = "R19k"
+    fn = ctx.model.fn("simplify:simplify")
+
+    def run(first):
+        # two terms that are equal up to a renaming of contracted indices; ``text`` is the form with the lowest indices
+        def term(label, text):
+            t = Obj("expr_container:Term", label)
+            t.attrs["substitute_contracted"] = lambda s_, a_, k_: text
+            t.attrs["subs"] = lambda s_, a_, k_: a_[-1] if a_ and isinstance(a_[-1], (Obj, T)) else sym("?")
+            return t
+        A, B, C = term("A", "g(i,j)*p(i)*q(j)"), term("B", "g(j,i)*p(j)*q(i)"), term("C", "h(i)")
+        terms = [A, B, C] if first == "A" else [B, A, C]
+        ex = Obj("expr_container:Expr", "expr")
+        ex.attrs.update(_classes={"Expr", "Container"}, terms=terms)
+        ex.attrs["expand"] = lambda s_, a_, k_: ex
+
+        def compatible(s_, a_, k_):
+            ts = a_[0] if a_ else k_.get("terms")
+            if not isinstance(ts, list):
+                return NotImplemented
+            # the first of the equivalent terms represents the class; the others are mapped onto it
+            eq = [k for k, t in enumerate(ts) if t is A or t is B]
+            rest = [k for k, t in enumerate(ts) if t is C]
+            return {eq[0]: {eq[1]: ts[eq[0]]}, rest[0]: {}}
+        sx = Symex(ctx.model, inline=lambda q: False, what="simplify", max_paths=64,
+                   hooks={"find_compatible_terms": compatible, "len": lambda s_, a_, k_: len(terms) if a_ and a_[0] is ex else NotImplemented})
+        outs = sx.run(fn, lambda: dict(expr=ex))
+        return sorted((o.kind, repr(canon(o.value)) if o.kind == "return" else str(o.exc)) for o in outs)
+    r1, r2 = run("A"), run("B")
+    ctx.check(rule, fn, bool(r1) and all(k == "return" for k, _ in r1), "simplify evaluates on the model expression",
+              f"simplify does not return on the model expression: {r1}", key="simplify evaluates")
+    ctx.check(rule, fn, r1 == r2, "the representative of equivalent terms does not follow the order of Expr.terms",
+              f"simplify returns {r1} when the term g(i,j)p(i)q(j) comes first in Expr.terms and {r2} when its renamed twin "
+              "g(j,i)p(j)q(i) comes first; the order of Expr.terms follows the name strings of the generic indices (sympy), which "
+              "wrap around with the generic counters: the text of the result depends on the requests that preceded it",
+              key="representative follows Expr.terms")
+
+
 # ====================================================================== R19f
 # Objects handed out by a cache are shared by all later callers: alias flow from every use of a cached method/property
 # with a mutable result to in-place mutations (mutator methods, item/attribute stores, augmented assignment, passing to
@@ -2955,6 +3000,8 @@ def run(ctx):
         r19i(ctx)
     if ctx.want("R19j"):
         r19j(ctx)
+    if ctx.want("R19k"):
+        r19k(ctx)
 
 
 def run_thorough(ctx):
